@@ -174,6 +174,16 @@ def main():
     c.lean_obligations(THEOREMS)
     if hb is None:
         c.finish("lake build", "n/a")
+    # a private copy of the driver: other checks relink lean/.lake/build/bin/drv while this one runs
+    try:
+        import shutil
+        with Lock("lake"):
+            priv = os.path.join(core.BIN, "drv-c10")
+            shutil.copy2(core.DRV, priv + ".tmp%d" % os.getpid())
+            os.replace(priv + ".tmp%d" % os.getpid(), priv)
+        core.DRV = priv
+    except Exception as e:
+        log("could not copy the driver:", e)
 
     if c.replay:
         if c.replay.startswith("pinned:"):
